@@ -72,7 +72,15 @@ func unmarshalText(i *big.Int, text string) error {
 
 // UnmarshalAmino for custom decoding scheme
 func unmarshalAmino(i *big.Int, text string) (err error) {
-	return unmarshalText(i, text)
+	if err := unmarshalText(i, text); err != nil {
+		return err
+	}
+	// only the spelling marshalAmino produces: big.Int also reads "+10", "010" or "0xa", and a second spelling of
+	// the same number gives a signed transaction a second byte encoding, with another hash for the replay check
+	if i.String() != text {
+		return fmt.Errorf("non-canonical integer encoding: %q", text)
+	}
+	return nil
 }
 
 // MarshalJSON for custom encoding scheme
